@@ -257,7 +257,8 @@ fn reads(m: &mut Memvid) -> Result<(), String> {
 pub fn child_main(file: &str) -> i32 {
     // address-space limit: a corrupted count must not be able to take the machine down
     unsafe {
-        let lim = libc::rlimit { rlim_cur: 6 << 30, rlim_max: 6 << 30 };
+        // generous: only an absurd reservation (tens of GiB for a file of a few hundred KiB) fails
+        let lim = libc::rlimit { rlim_cur: 24 << 30, rlim_max: 24 << 30 };
         libc::setrlimit(libc::RLIMIT_AS, &lim);
     }
     crate::runner::install_panic_hook();
